@@ -8,6 +8,7 @@ import (
 	"net/http"
 	"os"
 	"path/filepath"
+	"strings"
 	"sync"
 	"time"
 
@@ -115,17 +116,32 @@ func StartFake(ports ...string) *FakeHAProxy {
 // after the label, and one enabled global diagnosis (so that the diagnosis-free variant is distinguishable and
 // the proxy is told to manage everything).
 func PoliciesYAML(label string) []byte {
+	remedy := func(indent string) string {
+		return fmt.Sprintf(`%[1]s- name: "%[2]s"
+%[1]s  enabled: false
+%[1]s  config:
+%[1]s    fixed_response:
+%[1]s      status_code: 418
+`, indent, label)
+	}
 	if NoDiagnosis {
-		return []byte(fmt.Sprintf(`global:
-  remedies:
-    - name: "%s"
-      enabled: false
-      config:
-        fixed_response:
-          status_code: 418
-  diagnosis: []
-endpoints: []
-`, label))
+		// the shape of the configuration is part of the label: "" = the empty configuration (fresh install / everything
+		// removed), "E:x" = endpoint policies only, "X:x" = global and endpoint policies, anything else = global only;
+		// every plugin is disabled
+		short := label
+		if i := strings.Index(label, ":"); i >= 0 {
+			short = label[i+1:]
+		}
+		endpoint := fmt.Sprintf("  - url: \"api.test/%s\"\n    method: GET\n    remedies:\n%s    diagnosis: []\n", short, remedy("      "))
+		switch {
+		case label == "":
+			return []byte("global:\n  remedies: []\n  diagnosis: []\nendpoints: []\n")
+		case strings.HasPrefix(label, "E:"):
+			return []byte("global:\n  remedies: []\n  diagnosis: []\nendpoints:\n" + endpoint)
+		case strings.HasPrefix(label, "X:"):
+			return []byte("global:\n  remedies:\n" + remedy("    ") + "  diagnosis: []\nendpoints:\n" + endpoint)
+		}
+		return []byte("global:\n  remedies:\n" + remedy("    ") + "  diagnosis: []\nendpoints: []\n")
 	}
 	return []byte(fmt.Sprintf(`global:
   remedies:
@@ -153,6 +169,8 @@ func Describe(p *config.PoliciesData) (string, bool) {
 	label := ""
 	if len(p.Config.Global.Remedies) > 0 {
 		label = p.Config.Global.Remedies[0].Name
+	} else if len(p.Config.Endpoints) > 0 && len(p.Config.Endpoints[0].Remedies) > 0 {
+		label = p.Config.Endpoints[0].Remedies[0].Name
 	}
 	return label, p.VerifDiagnosisFree()
 }
